@@ -17,6 +17,11 @@ remove such a write leave the list unchanged):
                                            (list/dict/set literal or comprehension, or any call other than an immutable constructor)
   (every mutation `how` carries where it happens: @def = module / class body, run once at import; @fn = inside a function, also through
    a local alias `h = cls.table; h[k] = v` — a module/class-level container written @fn is lazy initialisation or a cache)
+  set-iteration|<file>|<scope>|<what>      code whose result order can depend on element hashes (PYTHONHASHSEED for strings, addresses for
+                                           objects): for / comprehension over set(...) / frozenset(...) / a set literal or comprehension / a local
+                                           name bound to one; list()/tuple()/join()/enumerate()/iter()/next()/zip() of such a value; set.pop();
+                                           sorted/min/max with key=id or key=hash.  what = the construct and the variable or callee
+  identity-key|<file>|<scope>|id|hash      a call of id() / hash(): object identity or hash used as a value (dict key, ordering)
   antlr|<file>|<Class>.<attr>              class-level objects of the generated lexers/parsers (ATN, DFA list, context cache): shared by
                                            all parser instances and mutated by the antlr4 runtime
 
@@ -73,6 +78,7 @@ class _Scan(ast.NodeVisitor):
         self.fn_depth = 0
         self.alias: dict[str, str] = {}
         self.class_obj_names: set[str] = set()
+        self.setnames: set[str] = set()
 
     def where(self) -> str:
         return ".".join(self.scope) or "<module>"
@@ -90,6 +96,51 @@ class _Scan(ast.NodeVisitor):
         self.generic_visit(node)
         self.scope.pop(); self.cls.pop()
 
+    # ---- order that depends on hashes -------------------------------------------------------------------------------
+    def _setlike(self, e: ast.AST | None) -> str | None:
+        if e is None:
+            return None
+        if isinstance(e, (ast.Set, ast.SetComp)):
+            return "set-literal"
+        if isinstance(e, ast.Call):
+            f = dotted(e.func)
+            if f in ("set", "frozenset"):
+                return f + "()"
+            if isinstance(e.func, ast.Attribute) and e.func.attr in ("union", "intersection", "difference", "symmetric_difference", "copy") \
+                    and self._setlike(e.func.value):
+                return "set-op"
+        if isinstance(e, ast.Name) and e.id in self.setnames:
+            return "name:" + e.id
+        if isinstance(e, ast.BinOp) and isinstance(e.op, (ast.BitOr, ast.BitAnd, ast.Sub, ast.BitXor)) and (self._setlike(e.left) or self._setlike(e.right)):
+            return "set-op"
+        return None
+
+    def _flag_iter(self, it: ast.AST, how: str) -> None:
+        k = self._setlike(it)
+        if k is not None:
+            self.out.add(f"set-iteration|{self.rel}|{self.where()}|{how}:{k}")
+
+    def visit_For(self, node: ast.For) -> None:
+        self._flag_iter(node.iter, "for")
+        self.generic_visit(node)
+
+    def _comp(self, node: ast.AST) -> None:
+        for g in node.generators:  # type: ignore[attr-defined]
+            self._flag_iter(g.iter, "comprehension")
+        self.generic_visit(node)
+
+    visit_ListComp = visit_GeneratorExp = visit_DictComp = _comp
+
+    def visit_SetComp(self, node: ast.SetComp) -> None:
+        self._comp(node)
+
+    def visit_AnnAssign(self, node: ast.AnnAssign) -> None:
+        if isinstance(node.target, ast.Name) and self.fn_depth > 0:
+            ann = ast.unparse(node.annotation)
+            if ann.startswith(("set[", "Set[", "set", "frozenset")) or self._setlike(node.value):
+                self.setnames.add(node.target.id)
+        self.generic_visit(node)
+
     def visit_FunctionDef(self, node: ast.FunctionDef) -> None:
         a = node.args
         pos = a.posonlyargs + a.args
@@ -100,8 +151,13 @@ class _Scan(ast.NodeVisitor):
         self.scope.append(node.name)
         self.fn_depth += 1
         saved = dict(self.alias)
+        saved_sets = set(self.setnames)
+        for arg in a.posonlyargs + a.args + a.kwonlyargs:
+            if arg.annotation is not None and ast.unparse(arg.annotation).startswith(("set[", "Set[", "frozenset")):
+                self.setnames.add(arg.arg)
         self.generic_visit(node)
         self.alias = saved
+        self.setnames = saved_sets
         self.fn_depth -= 1
         self.scope.pop()
 
@@ -136,6 +192,21 @@ class _Scan(ast.NodeVisitor):
 
     def visit_Call(self, node: ast.Call) -> None:
         f = dotted(node.func)
+        if f in ("list", "tuple", "enumerate", "iter", "next", "zip", "map", "filter", "reversed") and node.args:
+            for a0 in node.args:
+                k = self._setlike(a0)
+                if k is not None:
+                    self.out.add(f"set-iteration|{self.rel}|{self.where()}|{f}:{k}")
+        if isinstance(node.func, ast.Attribute) and node.func.attr == "join" and node.args and self._setlike(node.args[0]):
+            self.out.add(f"set-iteration|{self.rel}|{self.where()}|join:{self._setlike(node.args[0])}")
+        if isinstance(node.func, ast.Attribute) and node.func.attr == "pop" and not node.args and self._setlike(node.func.value):
+            self.out.add(f"set-iteration|{self.rel}|{self.where()}|pop:{self._setlike(node.func.value)}")
+        if f in ("sorted", "min", "max") or (isinstance(node.func, ast.Attribute) and node.func.attr == "sort"):
+            for kw in node.keywords:
+                if kw.arg == "key" and isinstance(kw.value, ast.Name) and kw.value.id in ("id", "hash"):
+                    self.out.add(f"set-iteration|{self.rel}|{self.where()}|{f or 'sort'}:key={kw.value.id}")
+        if f in ("id", "hash") and self.fn_depth > 0:
+            self.out.add(f"identity-key|{self.rel}|{self.where()}|{f}")
         if f is not None:
             if f.startswith(WATCH_PREFIX):
                 self.out.add(f"call|{self.rel}|{self.where()}|{f}")
@@ -177,6 +248,10 @@ class _Scan(ast.NodeVisitor):
         for t in node.targets:
             self._target(t, "assign")
         if self.fn_depth > 0 and len(node.targets) == 1 and isinstance(node.targets[0], ast.Name):
+            if self._setlike(node.value):
+                self.setnames.add(node.targets[0].id)
+            else:
+                self.setnames.discard(node.targets[0].id)
             d = dotted(node.value)
             c = self._canon(d) if d is not None else None
             if c is not None and (c in self.module_names or c in self.class_obj_names):
